@@ -44,6 +44,37 @@ class SanLog(object):
         return data.decode('utf-8', 'replace')
 
 
+_SAN = None
+
+
+def san_dirty():
+    """True once the sanitizer runtime has reported anything in this process.
+    Later observations in a process that has already executed an invalid
+    access are not trustworthy (recover mode performs the bad write)."""
+    global _SAN
+    if _SAN is None:
+        _SAN = SanLog()
+    try:
+        return bool(_SAN.path and os.path.exists(_SAN.path) and
+                    os.path.getsize(_SAN.path) > 0)
+    except OSError:
+        return False
+
+
+def exit_tainted():
+    sys.stderr.flush()
+    os._exit(77)
+
+
+def mark(obj):
+    """Leave a breadcrumb on stderr; the runner attaches the last one to a
+    crash / watchdog report so that it can be attributed."""
+    try:
+        os.write(2, b'@@MARK ' + json.dumps(obj, default=str).encode() + b'\n')
+    except Exception:
+        pass
+
+
 def main():
     modname = sys.argv[1]
     out = os.fdopen(os.dup(1), 'wb')
@@ -71,9 +102,6 @@ def main():
                     raise
                 res = dict(status='error', detail=traceback.format_exc()[-4000:],
                            exc=repr(e)[:500])
-        d = san.delta()
-        if d:
-            res['san'] = d[-20000:]
         from vlib.common import jsonable
         out.write(b'@@RESULT ' + json.dumps(jsonable(res)).encode() + b'\n')
         out.flush()
